@@ -228,6 +228,9 @@ def nograd_case(draw):
     sc["crit"] = draw(st.sampled_from(["entropic_rm", "oce", "oce", "es"]))  # OCE owns a trainable parameter
     sc["mode"] = draw(st.sampled_from(["train", "eval"]))
     sc["outer_grad"] = draw(st.booleans())
+    # the initial state as a tensor that requires grad (the documented way to differentiate a price w.r.t. the spot - here with
+    # enable_grad left at its default, so nothing may carry a graph)
+    sc["init_grad"] = draw(st.booleans())
     return sc
 
 
@@ -243,10 +246,14 @@ def check_nograd(case, ctx):
     has_params = any(p.requires_grad for p in hedger.parameters())
     n, k = case["n_paths"], case["n_times"]
     torch.manual_seed(case["sim_seed"])
+    kw0 = {}
+    if case.get("init_grad"):
+        state = [torch.tensor(float(x), dtype=objs["dtype"], requires_grad=(i == 0)) for i, x in enumerate(objs["ul"].default_init_state)]
+        kw0["init_state"] = tuple(state)
     with torch.set_grad_enabled(case.get("outer_grad", True)):
         with ctx.sut("C14/evaluation-only"):
-            p = hedger.price(deriv, hedge=hedge, n_paths=n, n_times=k)
-            l0 = hedger.compute_loss(deriv, hedge=hedge, n_paths=n, n_times=k, enable_grad=False)
+            p = hedger.price(deriv, hedge=hedge, n_paths=n, n_times=k, **kw0)
+            l0 = hedger.compute_loss(deriv, hedge=hedge, n_paths=n, n_times=k, enable_grad=False, **kw0)
     with ctx.sut("C14/evaluation-only"):
         l1 = hedger.compute_loss(deriv, hedge=hedge, n_paths=n, n_times=k)
         p1 = hedger.price(deriv, hedge=hedge, n_paths=n, n_times=k, enable_grad=True)
@@ -259,7 +266,7 @@ def check_nograd(case, ctx):
             ctx.check(p1.requires_grad, "C14/price-grad-has-no-graph", "price(enable_grad=True) carries no graph")
     ctx.check(torch.is_grad_enabled(), "C14/grad-mode-leaked", "gradient mode left disabled after an evaluation-only call")
     ctx.nontrivial(has_params)
-    ctx.cls("model:" + case["model"], "n_times:%d" % k, "crit:" + crit, "mode:" + case.get("mode", "train"))
+    ctx.cls("model:" + case["model"], "n_times:%d" % k, "crit:" + crit, "mode:" + case.get("mode", "train"), "init_state-requires-grad:" + str(bool(case.get("init_grad"))))
 
 
 META = {
